@@ -41,6 +41,7 @@ namespace sim
 		, m_writing_to_server(false)
 		, m_resolving(false)
 		, m_connecting(false)
+		, m_accepting(false)
 		, m_origin_port(0)
 		, m_num_client_in_bytes(0)
 		, m_num_server_out_bytes(0)
@@ -60,12 +61,14 @@ namespace sim
 		}
 		m_listen_socket.listen();
 
+		m_accepting = true;
 		m_listen_socket.async_accept(m_client_connection, m_ep
 			, std::bind(&http_proxy::on_accept, this, _1));
 	}
 
 	void http_proxy::on_accept(error_code const& ec)
 	{
+		m_accepting = false;
 		if (ec == asio::error::operation_aborted)
 			return;
 
@@ -88,9 +91,10 @@ namespace sim
 
 	void http_proxy::on_read_request(error_code const& ec, size_t bytes_transferred) try
 	{
-		// the connection this operation belonged to has been closed, and the
-		// next client may be using the sockets already
-		if (ec == asio::error::operation_aborted) return;
+		// the connection this operation belonged to has been closed (a completion
+		// that was already queued then arrives with whatever it completed with),
+		// and the next client may be using the sockets already
+		if (m_accepting || ec == asio::error::operation_aborted) return;
 
 		if (ec)
 		{
@@ -256,7 +260,7 @@ namespace sim
 		, const asio::ip::tcp::resolver::results_type ips)
 	{
 		// the client this lookup was made for is gone
-		if (ec == asio::error::operation_aborted) return;
+		if (m_accepting || ec == asio::error::operation_aborted) return;
 
 		m_resolving = false;
 		if (ec || ips.empty())
@@ -298,15 +302,16 @@ namespace sim
 
 	void http_proxy::on_error_sent(boost::system::error_code const& ec)
 	{
-		if (ec == asio::error::operation_aborted) return;
+		if (m_accepting || ec == asio::error::operation_aborted) return;
 		close_connection();
 	}
 
 	void http_proxy::on_connected(boost::system::error_code const& ec)
 	{
-		// the connection this operation belonged to has been closed, and the
-		// next client may be using the sockets already
-		if (ec == asio::error::operation_aborted) return;
+		// the connection this operation belonged to has been closed (a completion
+		// that was already queued then arrives with whatever it completed with),
+		// and the next client may be using the sockets already
+		if (m_accepting || ec == asio::error::operation_aborted) return;
 
 		m_connecting = false;
 		if (ec)
@@ -362,9 +367,10 @@ namespace sim
 	void http_proxy::on_server_receive(boost::system::error_code const& ec
 		, std::size_t bytes_transferred)
 	{
-		// the connection this operation belonged to has been closed, and the
-		// next client may be using the sockets already
-		if (ec == asio::error::operation_aborted) return;
+		// the connection this operation belonged to has been closed (a completion
+		// that was already queued then arrives with whatever it completed with),
+		// and the next client may be using the sockets already
+		if (m_accepting || ec == asio::error::operation_aborted) return;
 
 		if (ec)
 		{
@@ -381,9 +387,10 @@ namespace sim
 	void http_proxy::on_server_forward(error_code const& ec
 		, size_t)
 	{
-		// the connection this operation belonged to has been closed, and the
-		// next client may be using the sockets already
-		if (ec == asio::error::operation_aborted) return;
+		// the connection this operation belonged to has been closed (a completion
+		// that was already queued then arrives with whatever it completed with),
+		// and the next client may be using the sockets already
+		if (m_accepting || ec == asio::error::operation_aborted) return;
 
 		if (ec)
 		{
@@ -433,6 +440,7 @@ namespace sim
 		if (m_close) return;
 
 		// now we can accept another connection
+		m_accepting = true;
 		m_listen_socket.async_accept(m_client_connection, m_ep
 			, std::bind(&http_proxy::on_accept, this, _1));
 	}
